@@ -6,7 +6,7 @@
       a meaning here (after removal of the Data statements):
 
         driver    [IfErr (PCreate w) H | Do (PCreate w)]; Do (PRender b); Do PCloseChan; Do PWgWait; [Return]
-        writer    (IfErr (POpen _) [ReturnErr])*; Do (PMakeChan 0); Do (PWgAdd 1); Go consumer; Return
+        writer    (IfErr (POpen _) [ReturnErr])*; Do (PMakeChan 0); Do (PWgAdd 1) (either order); Go consumer; Return
         consumer  Defer PWgDone; [Defer PCloseFile]; RangeChan [RangeItems item]; final*; [Return]
         item      Do PAccItem  |  IfErr PWriteItem handler; [Do PCount]
         handler   [Drain;] Return
@@ -94,6 +94,7 @@ Fixpoint parse_writer (p : list stmt) : option writer :=
   match p with
   | IfErr (POpen _) [ReturnErr] :: r => option_map (fun w => mkW (S (w_opens w)) (w_cons w)) (parse_writer r)
   | [Do (PMakeChan 0); Do (PWgAdd 1); Go body; Return] => option_map (mkW 0) (parse_consumer body)
+  | [Do (PWgAdd 1); Do (PMakeChan 0); Go body; Return] => option_map (mkW 0) (parse_consumer body)
   | _ => None
   end.
 
@@ -224,6 +225,13 @@ Section Call.
   Inductive ipath : ist -> nat -> ist -> Prop :=
   | ipath_nil : forall c, ipath c 0 c
   | ipath_cons : forall c c' c'' n, istep c c' -> ipath c' n c'' -> ipath c (S n) c''.
+
+  (* a deterministic scheduler (first enabled step), to run the semantics on examples *)
+  Fixpoint iexec (fuel : nat) (c : ist) : ist :=
+    match fuel with
+    | 0 => c
+    | S k => match inext c with [] => c | c' :: _ => iexec k c' end
+    end.
 
   (* ---------------------------------------------------------------- abstraction to Pipeline.st *)
 
